@@ -1474,7 +1474,12 @@ struct TemplateCore {
                 } else if (evaluate(right, next_expr, expr->Operation) &&
                            evaluateExpression(left, right, expr->Operation)) {
                     expr = next_expr;
-                    continue;
+
+                    if (previous_oper < expr->Operation) {
+                        continue;
+                    }
+
+                    return true;
                 }
 
                 return false;
